@@ -40,6 +40,12 @@ pub const CUSTOM: &[(&str, &str)] = &[("e", "V&<"), ("z", ""), ("x", "y"), ("lon
 
 /// the same with a table of custom entities consulted before the predefined ones
 pub fn ref_unescape_with(s: &str, custom: &[(&str, &str)]) -> Result<String, ()> {
+    ref_unescape_full(s, custom, None)
+}
+
+/// `catch_all`: a resolver that answers EVERY name it is asked about with this text. Character
+/// references are not its business (documented: they cannot be overridden), whatever it would say.
+pub fn ref_unescape_full(s: &str, custom: &[(&str, &str)], catch_all: Option<&str>) -> Result<String, ()> {
     let cs: Vec<char> = s.chars().collect();
     let mut out = String::new();
     let mut i = 0;
@@ -83,6 +89,8 @@ pub fn ref_unescape_with(s: &str, custom: &[(&str, &str)]) -> Result<String, ()>
             }
         } else if let Some((_, v)) = custom.iter().find(|(k, _)| *k == name) {
             out.push_str(v);
+        } else if let Some(t) = catch_all {
+            out.push_str(t);
         } else {
             out.push(match name.as_str() {
                 "lt" => '<',
@@ -185,6 +193,15 @@ pub fn check(c: &Case) -> Verdict {
                 }
                 (Err(_), Err(())) => {}
                 _ => return Verdict::fail(format!("unescape_with(custom entities) on {:?} gives {:?}, the reference gives {:?}", s, withc, wantc)),
+            }
+            // a resolver that answers every name, also ones that start with '#': character references
+            // keep their meaning (and their errors)
+            let witha = unescape_with(s, |_| Some("\u{fffd}"));
+            let wanta = ref_unescape_full(s, &[], Some("\u{fffd}"));
+            match (&witha, &wanta) {
+                (Ok(a), Ok(b)) if a.as_ref() == b.as_str() => {}
+                (Err(_), Err(())) => {}
+                _ => return Verdict::fail(format!("unescape_with(a resolver answering every name) on {:?} gives {:?}, the reference gives {:?}", s, witha, wanta)),
             }
             v
         }
